@@ -1,7 +1,7 @@
 """C16 — missing observations (NaN policy) behave as if those observations were deleted"""
 import itertools, math
 import numpy as np
-import torch, gpytorch
+import torch, gpytorch, linear_operator
 from gpytorch.distributions import MultivariateNormal
 from symten import Sym, NAN, SH, CTX, as_sym_arr, sym_log, tri_solve_lower, HarnessError, atom
 from .common import (TableKernel, StubGP, labels, make_mean, declare_params, spd_solve, verify_solution, settings_ctx,
@@ -145,11 +145,20 @@ class MTStubGP(gpytorch.models.ExactGP):
         self.mean_module = gpytorch.means.MultitaskMean(gpytorch.means.ConstantMean(), num_tasks=t)
         self.covar_module = kernel
 
+    noninterleaved = False
+
     def forward(self, x):
-        return gpytorch.distributions.MultitaskMultivariateNormal(self.mean_module(x), self.covar_module(x))
+        mean, covar = self.mean_module(x), self.covar_module(x)
+        if self.noninterleaved:
+            # the SAME joint distribution, stored task-major
+            N_, t_ = mean.shape[-2], mean.shape[-1]
+            perm = torch.arange(N_ * t_).view(N_, t_).t().reshape(-1)
+            covar = linear_operator.to_linear_operator(linear_operator.to_dense(covar)[..., perm, :][..., :, perm])
+            return gpytorch.distributions.MultitaskMultivariateNormal(mean, covar, interleaved=False)
+        return gpytorch.distributions.MultitaskMultivariateNormal(mean, covar)
 
 
-def multitask_exact(S, n, t, m, pattern, policy, second_policy=None, cfg=None, through_likelihood=False):
+def multitask_exact(S, n, t, m, pattern, policy, second_policy=None, cfg=None, through_likelihood=False, noninterleaved=False):
     """multitask exact GP (n points x t tasks, targets with NaNs PER ENTRY): posterior and MLL = after deleting those entries"""
     pat = np.array([[bool(int(c)) for c in row] for row in pattern.split("|")])
     assert pat.shape == (n, t)
@@ -167,6 +176,7 @@ def multitask_exact(S, n, t, m, pattern, policy, second_policy=None, cfg=None, t
     Gs, Gc = S.factor("g", N)
     table = torch.zeros(N, N)
     model = MTStubGP(x, y, lik, MTTableKernel(table, perm, t), t)
+    model.noninterleaved = noninterleaved
     for p in model.parameters():
         p.requires_grad_(False)
     declare_params(S, model.mean_module, "mean_")
